@@ -475,8 +475,10 @@ impl ClusterHandler for GenCommHandler<'_> {
 
             CommissioningErrorEnum::map(ctx.exchange().with_state(|state| {
                 let sess = ctx.exchange().id().session(&mut state.sessions);
-                let pase_sess_id =
-                    matches!(sess.get_session_mode(), SessionMode::Pase { .. }).then(|| sess.id());
+                // The session the command arrived over: if the rollback removes it (a PASE
+                // session, or a CASE session on the fabric being rolled back), it is only
+                // marked as expired so that the response can still be sent.
+                let pase_sess_id = Some(sess.id());
 
                 // Only the session context (accessing fabric) the fail-safe is
                 // associated with may force it to expire: for anybody else the
@@ -495,6 +497,23 @@ impl ClusterHandler for GenCommHandler<'_> {
                     notify_mdns,
                     notify_change,
                 )?;
+
+                if let Some(fab_idx) = removed_fabric {
+                    // The CASE resumption records of the dropped fabric go with it
+                    // (its sessions are purged by `FailSafe::expire` itself)
+                    #[cfg(feature = "case-resumption")]
+                    {
+                        state.resumption.remove_for_fabric(fab_idx);
+                        ctx.exchange()
+                            .matter()
+                            .transport()
+                            .notify_resumption_dirty();
+                    }
+                    #[cfg(not(feature = "case-resumption"))]
+                    let _ = fab_idx;
+
+                    ctx.exchange().matter().transport().notify_session_removed();
+                }
 
                 Ok(())
             }))?
